@@ -10,6 +10,7 @@ import VotelibModel.Wrappers
 import VotelibModel.Simple
 import VotelibModel.HighestAverages
 import VotelibModel.QuotaDist
+import VotelibModel.OpenList
 namespace VL.C14
 open VL
 
@@ -203,5 +204,31 @@ def quotaLeaf (lr : Bool) (cfg : QD.Cfg) (qInt : Rat → Int → Except Err Rat)
           let res ← if lr then QD.largestRemainder cfg votes n prev caps else QD.quotaDistribute cfg votes n prev caps
           pure (selV res)
   | some _ => throw eType
+
+/-! ### open list evaluators (openlist.py, model `VL.thresholdOpenList` / `VL.listOrderTieBreaker`) for PartyListEvaluator -/
+
+/-- a party list: a Python list of candidates -/
+def toCandList (v : V) : Except Err (List Cand) :=
+  match v with
+  | .list l => l.mapM (fun x => match x with
+      | .cand c => pure c
+      | _ => throw eUnsupported)
+  | _ => throw eType
+
+/-- ThresholdOpenList.evaluate(votes, n_seats, candidate_list) -/
+def thresholdOpenListLeaf (cfg : OpenListCfg) : ListSem := fun pv k lst => do
+  let votes ← toVotes pv
+  let n ← k.asNat
+  let cl ← toCandList lst
+  let r ← thresholdOpenList cfg votes n cl
+  pure (.list (r.map V.cand))
+
+/-- ListOrderTieBreaker(Plurality()).evaluate(votes, n_seats, candidate_list) -/
+def listOrderLeaf : ListSem := fun pv k lst => do
+  let votes ← toVotes pv
+  let n ← k.asNat
+  let cl ← toCandList lst
+  let r ← listOrderTieBreaker (fun v m => .ok (if m = 0 then [] else getNBest v m)) votes n cl
+  pure (.list (r.map slotV))
 
 end VL.C14
